@@ -156,6 +156,10 @@ def run(ctx):
             r.ob(f.sig, "dispose elements", ok, "Dispose %s Deallocate" % ("precedes" if ok and deal else ("present; no" if ok else "MISSING before")), "%s:%d" % (f.file.split("/Include/")[-1], f.line))
     rules.append(r)
 
+    # ---------------- O14 what may be disposed in place
+    from rules.common import rule_dispose_target
+    rules.append(rule_dispose_target(ctx, m))
+
     # ---------------- O10 destroyed member
     r = Rule("O10-destroyed", "a member destroyed in place is not used again before it is re-initialised", floor=3)
     for f in m.functions:
